@@ -83,7 +83,7 @@ func hasRecoverCall(body ast.Node, info *types.Info) bool {
 func VerifyFunc(pkg *Pkg, cs *Contracts, key string) (fx *FnCtx, err error) {
 	decl := pkg.Funcs[key]
 	fc := cs.Funcs[key]
-	fx = &FnCtx{pkg: pkg, cs: cs, sc: NewSortCtx(), fc: fc, decl: decl, key: key,
+	fx = &FnCtx{pkg: pkg, cs: cs, sc: NewSortCtx(), fc: fc, decl: decl, key: key, hiddenNames: map[string]bool{},
 		heapSort: map[string]string{}, heapInit: map[string]string{}, usedAxioms: map[string]bool{}, usedSpecs: map[string]bool{}}
 	defer func() {
 		if r := recover(); r != nil {
@@ -169,7 +169,13 @@ func VerifyFunc(pkg *Pkg, cs *Contracts, key string) (fx *FnCtx, err error) {
 		if i < len(declParams) && declParams[i] != nil {
 			if o, ok := pkg.Info.Defs[declParams[i]].(*types.Var); ok {
 				st.vars[o] = v
-				st.named[o.Name()] = v
+				if o.Name() == name {
+					st.named[o.Name()] = v
+				} else {
+					// the contract renames this parameter: its Go name is not visible to specs
+					// (so that a package-level object of that name can be referred to)
+					fx.hiddenNames[o.Name()] = true
+				}
 			}
 		}
 		st.named[name] = v
@@ -438,6 +444,27 @@ func splitConj(g string) []string {
 			return []string{"true"}
 		}
 		return out
+	case "forall":
+		// (forall (vars) (! (and A B) :pattern (..)))  ->  one quantified formula per conjunct
+		if len(args) == 2 {
+			body, pat := args[1], ""
+			if bargs, bop := sexprArgs(body); bop == "!" && len(bargs) >= 1 {
+				body = bargs[0]
+				pat = " " + strings.Join(bargs[1:], " ")
+			}
+			parts := splitConj(body)
+			if len(parts) > 1 {
+				var out []string
+				for _, pt := range parts {
+					if pat != "" {
+						out = append(out, "(forall "+args[0]+" (! "+pt+pat+"))")
+					} else {
+						out = append(out, "(forall "+args[0]+" "+pt+")")
+					}
+				}
+				return out
+			}
+		}
 	case "=>":
 		if len(args) == 2 {
 			rhs := splitConj(args[1])
